@@ -1,5 +1,6 @@
 #include "alloc.h"
 #include <cstdlib>
+#include <cstring>
 #include <new>
 
 namespace simalloc {
@@ -8,6 +9,7 @@ State& state() { return g; }
 void reset() { g = State(); }
 }  // namespace simalloc
 
+#ifndef SIM_NO_ALLOC_SEAM   // (the ThreadSanitizer runtime brings its own operator new; the allocator seam is not used in that flavour)
 static inline void* sim_alloc(std::size_t n) {
     simalloc::State& g = simalloc::state();
     if (g.tracking) {
@@ -25,6 +27,7 @@ static inline void* sim_alloc(std::size_t n) {
     }
     void* p = std::malloc(n ? n : 1);
     if (!p) throw std::bad_alloc();
+    if (g.fill) std::memset(p, g.fill_byte, n);
     return p;
 }
 
@@ -34,3 +37,4 @@ void operator delete(void* p) noexcept { std::free(p); }
 void operator delete[](void* p) noexcept { std::free(p); }
 void operator delete(void* p, std::size_t) noexcept { std::free(p); }
 void operator delete[](void* p, std::size_t) noexcept { std::free(p); }
+#endif
